@@ -31,8 +31,8 @@ PARTIAL = ('proved for the model (Properties/C15.v), all n >= 1, every numiter >
            'numpy.linalg.eigvalsh in stage C, for both values of the hermitian flag.')
 ASSUMPTIONS = ['cases with a recorded loop norm in [100 n eps, 1e-6) are excluded from the correspondence (class "ambiguous")']
 
-SPECS = ['generic', 'generic', 'generic', 'degenerate', 'degenerate', 'scalar', 'zero']
-STARTS = ['generic', 'generic', 'real', 'invariant', 'invariant', 'eigvec']
+SPECS = ['generic', 'generic', 'generic', 'generic', 'degenerate', 'degenerate', 'degenerate', 'scalar', 'zero']
+STARTS = ['generic', 'generic', 'generic', 'real', 'invariant', 'invariant', 'eigvec']
 DTS = [(0.0, 0.5), (0.0, -0.25), (0.25, 0.0), (-0.5, 0.0), (0.125, 0.375), (-0.25, -0.5), (0.0, 1.0), (0.0, 0.0)]
 
 
